@@ -8,7 +8,9 @@ def plan(ex, tier, first):
     import obl_trace as T
     p = ("an un-finished transaction only creates/unlinks its own FRESH staging file; no lock, no intent, no WAL, no cas/ path",
          T.p_abandon_only_staging, "abandon_only_staging", "strace")
-    return [("put.new", [p]), ("tx.write", [p]), ("tx.drop", [p])]
+    gone = ("when the drop of an un-finished transaction returns, its staging file has been unlinked", T.p_abandon_removes_staging,
+            "abandon_removes_staging", "probe:replay_abandon_leaves_nothing")
+    return [("put.new", [p]), ("tx.write", [p]), ("tx.drop", [p, gone])]
 
 
 def run(tier, seed, ev):
